@@ -1,23 +1,264 @@
 """C40 — key generation results and inactivity claims satisfy the on-chain rules."""
+import os
+import re
+
 META = {
     "disabled": True,
     "level": "model_checking",
-    "text": "draft",
-    "note": "draft",
-    "technique": "draft",
+    "text": "The WalletRegistry rules (EcdsaDkgValidator.validate and its four parts, EcdsaDkg.submitResult's submitter rule, "
+            "Wallets.addWallet, WalletRegistry.notifyOperatorInactivity + EcdsaInactivity.verifyClaim, OpenZeppelin ECDSA.recover) are "
+            "transcribed statement by statement into the TLA+ modules ChainRules / InactivityClaim next to a model of the client's "
+            "submission path (SignResult, signature admission, the signature gate, chain-state check, AssembleDKGResult, on-chain "
+            "precheck, submission, approval, final signing group; NewClaimPreimage .. SubmitClaim). Hashes are abstract terms over typed "
+            "values. TLC checks for every selected group (incl. operators holding several seats), every operating/misbehaving "
+            "partition, submitter, supporter set and signature message (honest, absent, 8 adversarial forms) with n <= 6 that whatever "
+            "passes the client's gate satisfies the static rules, the members hash definition and per-signature recovery, that the gate "
+            "implies both contract thresholds, and that the registered wallet is the wallet the client operates. Every generated case is "
+            "replayed on the real tbtc.go / signer.go functions and on the real dkgResultSigner / dkgResultSubmitter / inactivity claim "
+            "signer and submitter running on the real Ethereum TbtcChain, and compared step by step; abstract hashes are mapped to bytes by "
+            "an ABI encoder + keccak written from the Solidity text, signatures are recovered with OpenZeppelin's rules. The property "
+            "quantifies over inputs, which TLC enumerates: model checking.",
+    "note": "Trusted: the hand transcription of the Solidity sources into TLA+ and into the harness (no EVM / solc offline; the engine "
+            "only checks that every transcribed statement is still present in the .sol files and the two transcriptions are compared with "
+            "each other on every case); go-ethereum's secp256k1 recovery and keccak; the sortition pool is an ID<->address bijection. "
+            "Start blocks >= 2^63 and member indexes > 255 are outside the input space. The DKG protocol itself is not run: its outcome "
+            "(misbehaved set, who supports the result) is an input.",
+    "technique": "TLA+ decision/pipeline spec with a hand-transcribed contract half, TLC exhaustive; generated cases replayed on the real "
+                 "client code against an independent ABI/keccak/recover implementation; hazard grain for signature admission",
     "design_ref": "DESIGN.md §4.6 C40",
 }
 SPEC = "specs/ChainRules"
 OV = {"internal/verifc40/solidity.go": "shared/c40/solidity.go"}
+OV_T = dict(OV)
+OV_T["pkg/chain/ethereum/zz_verif_c40_export.go"] = "pkg/chain/ethereum/c40_export.go"
+
+DKG_ACTS = ["SignResult", "Collect", "GateReject", "GatePass", "NotAwaiting", "Assemble", "Precheck", "Submit", "Approve", "RegisterSigner"]
+CLAIM_ACTS = ["NewClaim", "SignClaim", "Collect", "GateReject", "GatePass", "NonceMoved", "Assemble", "Notify"]
+
+# the Solidity statements the transcriptions rest on: (file, statement with whitespace normalized)
+SOL = "solidity/ecdsa/contracts/"
+QUOTES = [
+    (SOL + "EcdsaDkgValidator.sol", s) for s in [
+        "uint256 public constant publicKeyByteSize = 64;",
+        "uint256 public constant signatureByteSize = 65;",
+        "if (result.groupPubKey.length != publicKeyByteSize) {",
+        "if (groupSize - misbehavedMembersIndices.length < activeThreshold) {",
+        "if (misbehavedMembersIndices.length > 1) { if ( misbehavedMembersIndices[0] < 1 || misbehavedMembersIndices[misbehavedMembersIndices.length - 1] > groupSize ) {",
+        "for (uint256 i = 1; i < misbehavedMembersIndices.length; i++) { if ( misbehavedMembersIndices[i - 1] >= misbehavedMembersIndices[i] ) {",
+        "uint256 signaturesCount = result.signatures.length / signatureByteSize; if (result.signatures.length == 0) {",
+        "if (result.signatures.length % signatureByteSize != 0) {",
+        "if (signaturesCount != signingMembersIndices.length) {",
+        "if (signaturesCount < groupThreshold) {",
+        "if (signaturesCount > groupSize) {",
+        "if ( signingMembersIndices[0] < 1 || signingMembersIndices[signingMembersIndices.length - 1] > groupSize ) {",
+        "for (uint256 i = 1; i < signingMembersIndices.length; i++) { if (signingMembersIndices[i - 1] >= signingMembersIndices[i]) {",
+        "uint32[] memory actualGroupMembers = sortitionPool.selectGroup( groupSize, bytes32(seed) );",
+        "if (resultMembers[i] != actualGroupMembers[i]) {",
+        "bytes32 hash = keccak256( abi.encode( block.chainid, result.groupPubKey, result.misbehavedMembersIndices, startBlock ) ).toEthSignedMessageHash();",
+        "signingMemberIds[i] = result.members[signingMembersIndices[i] - 1];",
+        "address[] memory signingMemberAddresses = sortitionPool.getIDOperators( signingMemberIds );",
+        "current = result.signatures.slice( signatureByteSize * i, signatureByteSize ); address recoveredAddress = hash.recover(current); if (signingMemberAddresses[i] != recoveredAddress) {",
+        "uint32[] memory groupMembers = new uint32[]( result.members.length - result.misbehavedMembersIndices.length );",
+        "for (uint256 i = 0; i < result.members.length; i++) {",
+        "if (i != result.misbehavedMembersIndices[k] - 1) { groupMembers[j] = result.members[i]; j++; } else if (k < result.misbehavedMembersIndices.length - 1) { k++; }",
+        "return keccak256(abi.encode(groupMembers)) == result.membersHash;",
+        "return keccak256(abi.encode(result.members)) == result.membersHash;",
+        "(bool hasValidFields, string memory error) = validateFields(result); if (!hasValidFields) { return (false, error); } if (!validateSignatures(result, startBlock)) { return (false, \"Invalid signatures\"); } if (!validateGroupMembers(result, seed)) { return (false, \"Invalid group members\"); }",
+        "if (!validateMembersHash(result)) { return (false, \"Invalid members hash\"); }",
+    ]
+] + [
+    (SOL + "libraries/EcdsaDkg.sol", s) for s in [
+        "uint256 submitterMemberIndex;", "bytes groupPubKey;", "uint8[] misbehavedMembersIndices;", "bytes signatures;",
+        "uint256[] signingMembersIndices;", "uint32[] members;", "bytes32 membersHash;",
+        "sortitionPool.getIDOperator( result.members[result.submitterMemberIndex - 1] ) == msg.sender,",
+    ]
+] + [
+    (SOL + "libraries/Wallets.sol", s) for s in [
+        "walletID = keccak256(publicKey);",
+        "self.registry[walletID].membersIdsHash = membersIdsHash;",
+    ]
+] + [
+    (SOL + "WalletRegistry.sol", s) for s in [
+        "require(nonce == inactivityClaimNonce[walletID], \"Invalid nonce\");",
+        "require( memberIdsHash == keccak256(abi.encode(groupMembers)), \"Invalid group members\" );",
+        "uint32[] memory ineligibleOperators = Inactivity.verifyClaim( sortitionPool, claim, bytes.concat(pubKeyX, pubKeyY), nonce, groupMembers );",
+    ]
+] + [
+    (SOL + "libraries/EcdsaInactivity.sol", s) for s in [
+        "uint256[] inactiveMembersIndices;", "bool heartbeatFailed;", "uint256[] signingMembersIndices;",
+        "uint256 public constant signatureByteSize = 65;",
+        "validateMembersIndices( claim.inactiveMembersIndices, groupMembers.length );",
+        "uint256 signaturesCount = claim.signatures.length / signatureByteSize; require(claim.signatures.length != 0, \"No signatures provided\");",
+        "require( claim.signatures.length % signatureByteSize == 0, \"Malformed signatures array\" );",
+        "require( signaturesCount == claim.signingMembersIndices.length, \"Unexpected signatures count\" );",
+        "require(signaturesCount >= groupThreshold, \"Too few signatures\");",
+        "require(signaturesCount <= groupMembers.length, \"Too many signatures\");",
+        "validateMembersIndices( claim.signingMembersIndices, groupMembers.length );",
+        "bytes32 signedMessageHash = keccak256( abi.encode( block.chainid, nonce, walletPubKey, claim.inactiveMembersIndices, claim.heartbeatFailed ) ).toEthSignedMessageHash();",
+        "address[] memory groupMembersAddresses = sortitionPool.getIDOperators( groupMembers );",
+        "address recoveredAddress = signedMessageHash.recover( checkedSignature );",
+        "require( groupMembersAddresses[memberIndex - 1] == recoveredAddress, \"Invalid signature\" );",
+        "if (!senderSignatureExists && msg.sender == recoveredAddress) { senderSignatureExists = true; }",
+        "require(senderSignatureExists, \"Sender must be claim signer\");",
+        "inactiveMembers[i] = groupMembers[memberIndex - 1];",
+        "require( indices.length > 0 && indices.length <= groupSize, \"Corrupted members indices\" );",
+        "require( indices[0] > 0 && indices[indices.length - 1] <= groupSize, \"Corrupted members indices\" );",
+        "for (uint256 i = 0; i < indices.length - 1; i++) {",
+        "require(indices[i] < indices[i + 1], \"Corrupted members indices\");",
+    ]
+]
+
+
+def _norm(s):
+    s = re.sub(r"//[^\n]*", " ", s)
+    return re.sub(r"\s+", "", s)
+
+
+def read_sources(ctx):
+    """Transcription guard + the constants of both sides, read from the tree under test."""
+    repo = os.environ.get("VERIF_REPO", "/repo")
+    texts = {}
+    for f, q in QUOTES:
+        if f not in texts:
+            try:
+                texts[f] = _norm(open(os.path.join(repo, f)).read())
+            except OSError as e:
+                ctx.broken("cannot read %s: %s" % (f, e))
+        if _norm(q) not in texts[f]:
+            ctx.broken("the Solidity statement the transcription rests on is no longer in %s: the specification's contract half is "
+                       "stale and must be re-transcribed by hand: %s" % (f, q))
+
+    def const(f, name):
+        m = re.search(r"uint256publicconstant%s=(\d+);" % name, texts[SOL + f])
+        if not m:
+            ctx.broken("constant %s not found in %s" % (name, f))
+        return int(m.group(1))
+    sol = {"SIZE": const("EcdsaDkgValidator.sol", "groupSize"), "ACTIVE": const("EcdsaDkgValidator.sol", "activeThreshold"),
+           "THRESHOLD": const("EcdsaDkgValidator.sol", "groupThreshold"),
+           "CLAIM_THRESHOLD": const("libraries/EcdsaInactivity.sol", "groupThreshold")}
+    go = open(os.path.join(repo, "pkg/tbtc/tbtc.go")).read()
+    m = re.search(r"groupParameters\s*:=\s*&GroupParameters\{\s*GroupSize:\s*(\d+),\s*GroupQuorum:\s*(\d+),\s*HonestThreshold:\s*(\d+),", go)
+    if not m:
+        ctx.broken("cannot find the client's group parameters in pkg/tbtc/tbtc.go")
+    cli = {"SIZE": int(m.group(1)), "QUORUM": int(m.group(2)), "HONEST": int(m.group(3))}
+    return sol, cli
+
+
+def par(jobs):
+    import threading
+    res, errs = [None] * len(jobs), []
+
+    def w(i, f):
+        try:
+            res[i] = f()
+        except BaseException as e:      # noqa
+            errs.append(e)
+    ts = [threading.Thread(target=w, args=(i, f)) for i, f in enumerate(jobs)]
+    for t in ts:
+        t.start()
+    for t in ts:
+        t.join()
+    if errs:
+        raise errs[0]
+    return res
 
 
 def run(ctx):
-    g = ctx.tlc(SPEC, "Gen_ChainRules", cfg="Gen_N4q", workers=1, label="Gen_N4q", dump_trace=False, timeout=900)
-    cases = ctx.read_emitted(g, "cases.ndjson")
-    g2 = ctx.tlc(SPEC, "Gen_InactivityClaim", cfg="Gen_Claim4", workers=1, label="Gen_Claim4", dump_trace=False, timeout=900)
-    claims = ctx.read_emitted(g2, "claims.ndjson")
-    ctx.note("cases %d claims %d" % (len(cases), len(claims)))
-    go = ctx.gotest("pkg/chain/ethereum", "^TestVerif_C40_", ["c40_test.go"], inputs={"cases.ndjson": cases, "claims.ndjson": claims},
-                    extra_overlay=OV, label="chain", timeout=1500)
-    ctx.absorb(go)
-    return ctx.finish(level="model_checking", rule="draft", assumptions=["draft"], exhaustive=False)
+    sol, cli = read_sources(ctx)
+    ctx.note("constants: contract %s, client %s; %d transcribed Solidity statements present" % (sol, cli, len(QUOTES)))
+
+    # ---- 1. TLC: the contract model satisfies the property; hazard / weak-gate variants must violate it (non-vacuity)
+    mc_dkg = ctx.pick([], ["MC_N5", "MC_N5adv2", "MC_N5wide", "MC_N4", "MC_N6"])
+    mc_claim = ctx.pick([], ["MC_Claim5", "MC_Claim5wide", "MC_Claim4", "MC_Claim6"])
+    gen_dkg = ctx.pick(["Gen_N4q"], ["Gen_N4", "Gen_N5", "Gen_N6"])
+    gen_claim = ctx.pick(["Gen_Claim4"], ["Gen_Claim4", "Gen_Claim5", "Gen_Claim6"])
+    T = ctx.pick(900, 3000)
+    jobs = []
+    for c in mc_dkg:
+        jobs.append(lambda c=c: ("mcd", c, ctx.tlc(SPEC, "MC_ChainRules", cfg=c, coverage=True, label=c, timeout=T, workers=4)))
+    for c in mc_claim:
+        jobs.append(lambda c=c: ("mcc", c, ctx.tlc(SPEC, "MC_InactivityClaim", cfg=c, coverage=True, label=c, timeout=T, workers=4)))
+    for c, mod in (("MC_Hazard", "MC_ChainRules"), ("MC_WeakGate", "MC_ChainRules"),
+                   ("MC_ClaimHazard", "MC_InactivityClaim"), ("MC_ClaimWeakGate", "MC_InactivityClaim")):
+        jobs.append(lambda c=c, mod=mod: ("neg", c, ctx.tlc(SPEC, mod, cfg=c, label=c, timeout=T, workers=2, expect=("violation",))))
+    for c in gen_dkg:
+        jobs.append(lambda c=c: ("gend", c, ctx.tlc(SPEC, "Gen_ChainRules", cfg=c, workers=1, label=c, dump_trace=False,
+                                                    coverage=True, timeout=T)))
+    for c in gen_claim:
+        jobs.append(lambda c=c: ("genc", c, ctx.tlc(SPEC, "Gen_InactivityClaim", cfg=c, workers=1, label=c, dump_trace=False,
+                                                    coverage=True, timeout=T)))
+    cases, claims = [], []
+    for kind, c, r in par(jobs):
+        if kind in ("mcd", "gend"):
+            ctx.require_coverage(r, DKG_ACTS, c)
+        if kind in ("mcc", "genc"):
+            ctx.require_coverage(r, CLAIM_ACTS, c)
+        if kind == "gend":
+            got = ctx.read_emitted(r, "cases.ndjson")
+            if len(got) < 3000:
+                ctx.broken("%s emitted only %d cases" % (c, len(got)))
+            cases += got
+        if kind == "genc":
+            got = ctx.read_emitted(r, "claims.ndjson")
+            if len(got) < 2000:
+                ctx.broken("%s emitted only %d claims" % (c, len(got)))
+            claims += got
+    done = sum(1 for x in cases if x["pc"] == "done")
+    cdone = sum(1 for x in claims if x["pc"] == "done")
+    ctx.note("generated %d result cases (%d submitted) and %d claim cases (%d accepted)" % (len(cases), done, len(claims), cdone))
+    if done < 300 or cdone < 100:
+        ctx.broken("too few generated cases pass the gates (%d results, %d claims)" % (done, cdone))
+
+    # ---- 2. replay: chain-format side (all cases) and submission side (all gate-passing cases + a seeded sample of the rest)
+    import random
+    rnd = random.Random(ctx.seed)
+
+    def sample(xs, n):
+        hot = [x for x in xs if x["pc"] != "failed"]
+        cold = [x for x in xs if x["pc"] == "failed"]
+        return hot + rnd.sample(cold, min(len(cold), n))
+    t_cases = sample(cases, ctx.pick(1500, 12000))
+    t_claims = sample(claims, ctx.pick(800, 6000))
+    env = {"VERIF_RUNS": ctx.pick(24, 240)}
+    for k, v in sol.items():
+        env["VERIF_C40_SOL_" + k] = v
+    for k, v in cli.items():
+        env["VERIF_C40_CLIENT_" + k] = v
+    ge, gt = par([
+        lambda: ctx.gotest("pkg/chain/ethereum", "^TestVerif_C40_", ["c40_test.go"], inputs={"cases.ndjson": cases, "claims.ndjson": claims},
+                           extra_overlay=OV, env={"VERIF_RUNS": ctx.pick(60, 600)}, label="chain", timeout=ctx.pick(1200, 3000)),
+        lambda: ctx.gotest("pkg/tbtc", "^TestVerif_C40_", ["c40_test.go", "c40_export_test.go"],
+                           inputs={"cases.ndjson": t_cases, "claims.ndjson": t_claims}, extra_overlay=OV_T, env=env, label="submit",
+                           timeout=ctx.pick(1500, 3000)),
+    ])
+    ctx.absorb(ge)
+    ctx.absorb(gt)
+    if not ctx.violations:
+        h = ctx.extra.get("harness", {})
+        need = {"dkg": ["assembled", "registered", "verdict/", "verdict/Too few signatures", "verdict/Too many members misbehaving during DKG",
+                        "verify/honest/true", "verify/mislabelled/false", "verify/otherOperator/false", "verify/highS/false"],
+                "claims": ["assembled", "notify/", "verify/honest/true"],
+                "submit": ["pc/done", "pc/aborted", "pc/failed"],
+                "submitclaim": ["pc/done", "pc/aborted", "pc/failed"],
+                "realparams": ["submitted", "stopped"]}
+        for name, keys in need.items():
+            cnt = (h.get(name) or {}).get("counters") or {}
+            for k in keys:
+                if cnt.get(k, 0) < 3:
+                    ctx.broken("harness %s exercised %s only %d times" % (name, k, cnt.get(k, 0)))
+    return ctx.finish(
+        level="model_checking",
+        rule="every case of the models: group size n = 4 (quick) / 4, 5, 6 (thorough) with thresholds (active, signatures, client quorum) "
+             "(3,2,3) / (4,3,4) / (5,4,5); 3-5 selected groups (distinct, reversed, operators with several adjacent / separated seats, one "
+             "operator everywhere); every misbehaved subset; every operating submitter; every other operating seat offering nothing, an "
+             "honest signature or (at most 1-2 seats) one of 8 adversarial messages; key / chain ID / start block / nonce classes spread "
+             "over the cases and instantiated by seed; inactivity claims likewise over wallets of 3-6 seats, every non-empty reported "
+             "subset (presented unsorted with duplicates) and both heartbeat flags. Non-trivial = the client's gate is passed. Plus "
+             "random runs with the real constants (100/90/51) around the quorum and the gate.",
+        assumptions=["hand transcription of EcdsaDkgValidator / EcdsaDkg / Wallets / WalletRegistry / EcdsaInactivity / OpenZeppelin ECDSA "
+                     "(guarded by a presence check of every transcribed statement)",
+                     "the sortition pool maps operator IDs to addresses one to one and returns the group the client selected",
+                     "supporter messages reach VerifySignature with the sender's pinned public key and the preferred result hash "
+                     "(filters of pkg/tecdsa/dkg and pkg/protocol/inactivity, not re-checked here)",
+                     "start blocks < 2^63, member indexes <= 255"],
+        exhaustive=True)
